@@ -4,18 +4,18 @@
 # Output: /tmp/mut/<seed-id>/result.txt ; the scratch tree is removed afterwards unless KEEP=1.
 set -u
 SEED=$1; shift
-D=/tmp/mut/$SEED
+D=${MUTDIR:-/tmp/mut}/$SEED
 rm -rf $D/harness $D/out; mkdir -p $D/out
 git -C /repo worktree remove --force $D/repo 2>/dev/null; rm -rf $D/repo
 git -C /repo worktree add -q --detach $D/repo HEAD || exit 2
 (cd $D/repo && git apply /verif/seeded/$SEED/patch.diff) || { echo "patch does not apply" > $D/result.txt; exit 2; }
-mkdir -p $D/harness && (cd /verif/harness && tar cf - --exclude=target .) | (cd $D/harness && tar xf -)
+mkdir -p $D/harness && (cd ${VROOT:-/verif}/harness && tar cf - --exclude=target .) | (cd $D/harness && tar xf -)
 sed -i "s#/repo/programs/whirlpool#$D/repo/programs/whirlpool#g; s#/repo/rust-sdk#$D/repo/rust-sdk#g" $D/harness/Cargo.toml $D/harness/build.rs
 # reuse the warm dependency build of the main harness
-if [ -d /verif/harness/target ]; then cp -r /verif/harness/target $D/harness/target; fi
+if [ -d ${VROOT:-/verif}/harness/target ]; then cp -r ${VROOT:-/verif}/harness/target $D/harness/target; fi
 : > $D/result.txt
 for C in "$@"; do
-  (cd /verif && VERIF_REPO=$D/repo VERIF_HARNESS=$D/harness VERIF_OUT=$D/out ./check $C --tier ${TIER:-quick} > $D/out/$C.log 2>&1; echo "seed=$SEED check=$C exit=$? $(grep -c ^VIOLATION $D/out/$C.log) violations; $(grep -m1 -A1 ^VIOLATION $D/out/$C.log | tail -1 | cut -c1-300)" >> $D/result.txt)
+  (cd ${VROOT:-/verif} && VERIF_REPO=$D/repo VERIF_HARNESS=$D/harness VERIF_OUT=$D/out ./check $C --tier ${TIER:-quick} > $D/out/$C.log 2>&1; echo "seed=$SEED check=$C exit=$? $(grep -c ^VIOLATION $D/out/$C.log) violations; $(grep -m1 -A1 ^VIOLATION $D/out/$C.log | tail -1 | cut -c1-300)" >> $D/result.txt)
 done
 cat $D/result.txt
 if [ "${KEEP:-0}" != "1" ]; then git -C /repo worktree remove --force $D/repo; rm -rf $D/harness $D/repo; fi
